@@ -810,6 +810,22 @@ func generate(r *lib.Run) {
 		r.Do("ka", g.hunt4History(1+g.rng.Intn(6), 0)...)
 		r.Stat("class.hunt4", 1)
 	}
+	// the application overwrites every byte slice it gets back by value (notifications, FindByMAC, IPAddrs,
+	// FindRouter, ProcessMDNS / ProcessDNS / DNSFind results): the tables must not change
+	for i := 0; i < 40*scale; i++ {
+		toks := g.history(10+g.rng.Intn(25), [8]int{25, 20, 10, 12, 8, 15, 5, 5})
+		obs := r.Exec("hw", toks)
+		r.Stat("class.callerwrites", 1)
+		if strings.HasPrefix(obs, "F:") {
+			// a Go-side oracle record per output class whose values share storage with the tables
+			cls, _, _ := strings.Cut(obs[2:], " ")
+			for _, c := range strings.Split(cls, ",") {
+				r.Viol("c10-out-alias-"+c, "overwriting the values handed out by value at output class "+c+" changed the retained state or later outputs", "hw "+strings.Join(toks, " "))
+			}
+			continue
+		}
+		r.Case("hw", toks, obs)
+	}
 	classes := []struct {
 		name  string
 		n     int
